@@ -33,6 +33,7 @@ type hcase struct {
 	ID       int      `json:"id"`
 	Module   string   `json:"module"`
 	Mod      int      `json:"-"`
+	Note     string   `json:"note,omitempty"`
 	Payloads []string `json:"payloads"`
 	Ops      []hop    `json:"deliveries"`
 }
@@ -507,7 +508,7 @@ func main() {
 	ms := modules()
 	root := rng.New(a.Seed)
 	rep := emit.NewReport("C18", a.Seed, a.Tier)
-	rep.Rule = "handler cases: one of the five parser/updater/rule-manager combinations, an alphabet of 4-10 payloads (valid arrays, the same array re-serialised, arrays with null elements, wrongly typed elements or documents, truncated JSON, empty input, whitespace, null/[], unknown/duplicate/out-of-range fields, arrays with a rule whose custom generator can be made to fail) and 6-14 deliveries with repeats; plus every delivery sequence up to length 2 (quick) / 3 (thorough) over a fixed 6-payload alphabet per module. Non-trivial = the case contains at least one delivery that changed the rules in force, one rejected delivery and one identical re-delivery; distinct by full input. Wire cases (wire_* counters): one payload through the real *JsonArrayParser of a random module - Go json.Marshal output, the model encoder's output, hand-written variants, malformed payloads, fixed documents - compared field for field with Model/Json.v's decoder inside Coq when the payload lies in the model's byte subset; payloads describing loadable rules are also delivered to a real handler. File cases (file_* counters): a real RefreshableFileDataSource on a temp file driven through write / truncate / chmod / rename-away (+ new file) / remove (partial: fsnotify timing, 3 s bounds)."
+	rep.Rule = "handler cases: one of the five parser/updater/rule-manager combinations, an alphabet of 4-10 payloads (valid arrays, the same array re-serialised, arrays with null elements, wrongly typed elements or documents, truncated JSON, empty input, whitespace, null/[], unknown/duplicate/out-of-range fields, arrays with a rule whose custom generator can be made to fail) and 6-14 deliveries with repeats; plus every delivery sequence up to length 2 (quick) / 3 (thorough) over a fixed 6-payload alphabet per module; plus, for every wire field of every module and base rules of every strategy, the sequence A, B, A where B differs from A in that one field (single_field_variation_sequences). Non-trivial = the case contains at least one delivery that changed the rules in force, one rejected delivery and one identical re-delivery; distinct by full input. Wire cases (wire_* counters): one payload through the real *JsonArrayParser of a random module - Go json.Marshal output, the model encoder's output, hand-written variants, malformed payloads, fixed documents - compared field for field with Model/Json.v's decoder inside Coq when the payload lies in the model's byte subset; payloads describing loadable rules are also delivered to a real handler. File cases (file_* counters): a real RefreshableFileDataSource on a temp file driven through write / truncate / chmod / rename-away (+ new file) / remove (partial: fsnotify timing, 3 s bounds)."
 	nCorr := a.Pick(a.N, 260, 3000)
 	nMon := a.Pick(a.Mon, 3000, 40000)
 	exhLen := 2
@@ -589,6 +590,12 @@ func main() {
 			runWire(a, root, rep, nil, a.Only)
 		case a.Only >= fileBase:
 			runFile(a, root, ms, rep, nil, a.Only)
+		case a.Only >= varBase:
+			for _, c := range varyCases() {
+				if c.ID == a.Only {
+					runOne(c, false)
+				}
+			}
 		case a.Only >= exhBase:
 			for _, c := range exh {
 				if c.ID == a.Only {
@@ -608,6 +615,11 @@ func main() {
 		runOne(c, !a.Search)
 	}
 	rep.Count("exhaustive_sequences", len(exh))
+	vary := varyCases()
+	for _, c := range vary {
+		runOne(c, !a.Search)
+	}
+	rep.Count("single_field_variation_sequences", len(vary))
 	runWire(a, root, rep, sh, -1)
 	runFile(a, root, ms, rep, sh, -1)
 	rep.DistinctNontrivial = dist.N()
